@@ -11,6 +11,7 @@ use etherparse::igmp::ReportGroupRecordV3Header;
 use etherparse::*;
 
 fn len_err(e: &LenError) -> String {
+    crate::util::touch(e);
     format!(
         "err(len(req={},len={},src={:?},layer={:?},off={}))",
         e.required_len, e.len, e.len_source, e.layer, e.layer_start_offset
@@ -242,6 +243,7 @@ fn icmp6(b: &[u8]) -> String {
 }
 
 fn ndp_err(e: &NdpOptionReadError) -> String {
+    crate::util::touch(e);
     use NdpOptionReadError::*;
     match e {
         UnexpectedEndOfSlice {
